@@ -77,6 +77,12 @@ Definition astep (strategy : bool) (a : astate) (o : op) : astate * bool :=
      a StrategyDict has released the names of the assignment (as "del" of each present name) *)
   | OSetBad kt => (if strategy then aspec_unname a kt else a, true)
   | OObs q => (a, aq_raises a q)
+  (* the user may choose or remove the default at any time *)
+  | OSetDefault v => (if strategy then AST (amap a) (clock a) (Some v) else a, false)
+  | ODelDefault => if strategy then match adefault a with
+                                    | Some _ => (AST (amap a) (clock a) None, false)
+                                    | None => (a, true) end
+                   else (a, true)
   end.
 
 (* the view the property promises (keys()/iteration only up to order) *)
@@ -94,4 +100,27 @@ Fixpoint arun (strategy : bool) (ks : list key) (vs : list val) (a : astate) (op
   match ops with
   | [] => []
   | o :: r => let '(a', e) := astep strategy a o in aview strategy ks vs a' e :: arun strategy ks vs a' r
+  end.
+
+(* ---- several objects (round 3): each object is its own abstract map; building a MultiKeyDict from
+   another object copies that object's key -> (value, stamp) map as it is at that moment (a
+   MultiKeyDict has no default); afterwards the two evolve independently *)
+Definition acopy (a : astate) : astate := AST (amap a) (clock a) None.
+
+Definition ahstep (h : list (bool * astate)) (m : mop) : list (bool * astate) * bool :=
+  match m with
+  | MOn i o => match nth_error h i with
+               | Some (st, a) => let '(a', e) := astep st a o in (set_nth i (st, a') h, e)
+               | None => (h, true) end
+  | MCast i => match nth_error h i with
+               | Some (_, a) => (h ++ [(false, acopy a)], false)
+               | None => (h, true) end
+  | MNew st => (h ++ [(st, ainit)], false)
+  end.
+
+Fixpoint ahrun (ks : list key) (vs : list val) (h : list (bool * astate)) (ms : list mop) : list (bool * list view) :=
+  match ms with
+  | [] => []
+  | m :: r => let '(h', e) := ahstep h m in
+              (e, map (fun sa => aview (fst sa) ks vs (snd sa) false) h') :: ahrun ks vs h' r
   end.
